@@ -114,28 +114,33 @@ def gen(tier):
 
 def run(tier, deadline):
     t0 = time.time(); build(); vf, ff = gen(tier)
-    env = dict(os.environ, CAT_LIB=vbuild.build("prod"))
+    # thorough tier: the quick vector set once more on the library built the way a default ./configure builds it (dist: -O2, _FORTIFY_SOURCE=2)
+    envs = {v: dict(os.environ, CAT_LIB=vbuild.build(v)) for v in (("prod",) if tier == "quick" else ("prod", "dist"))}
     NS = 16
-    jobs = [["norm", vf, str(i), str(NS)] for i in range(NS)] + [["fold", ff, str(i), str(NS)] for i in range(NS)] + [["range"]]
+    jobs = [("prod", tier, j) for j in [["norm", vf, str(i), str(NS)] for i in range(NS)] + [["fold", ff, str(i), str(NS)] for i in range(NS)] + [["range"]]]
+    if tier == "thorough":
+        vfq, ffq = gen("quick")
+        jobs += [("dist", "quick", j) for j in [["norm", vfq, str(i), str(NS)] for i in range(NS)] + [["fold", ffq, str(i), str(NS)] for i in range(NS)] + [["range"]]]
     viol = {}; internal = []; tot = {"vectors": 0, "calls": 0}; timed_out = []
-    def one(j):
+    def one(vj):
+        v, vt, j = vj
         left = deadline - (time.time() - t0)
-        try: return j, subprocess.run([BIN] + j, capture_output=True, text=True, errors="replace", env=env, timeout=max(5, left))
-        except subprocess.TimeoutExpired: timed_out.append(j); return j, None
+        try: return vj, subprocess.run([BIN] + j, capture_output=True, text=True, errors="replace", env=envs[v], timeout=max(5, left))
+        except subprocess.TimeoutExpired: timed_out.append(vj); return vj, None
     with ThreadPoolExecutor(16) as ex:
-        for j, r in ex.map(one, jobs):
+        for (v, vt, j), r in ex.map(one, jobs):
             if r is None: continue
             if r.returncode != 0: internal.append(f"{j}: exit {r.returncode} {r.stderr[-200:]}"); continue
             for ln in r.stdout.splitlines():
                 if not ln.startswith("{"): continue
                 o = json.loads(ln)
-                if o["t"] == "viol": e = viol.setdefault(o["sig"], [0, o["case"]]); e[0] += o["n"]
+                if o["t"] == "viol": e = viol.setdefault(o["sig"], [0, o["case"], v, vt]); e[0] += o["n"]
                 elif o["t"] == "stat":
                     for k in tot: tot[k] += o[k]
     if internal:
         for m in internal[:10]: print("INTERNAL-ERROR:", m, file=sys.stderr)
         return 2
-    violations = [common.Violation(sig, "", f"property=C17\nsignature={sig}\ntier={tier}\ncase={case}\n", n) for sig, (n, case) in sorted(viol.items())]
+    violations = [common.Violation(sig, "" if v == "prod" else "library build: " + v, f"property=C17\nvariant={v}\nsignature={sig}\ntier={vt}\ncase={case}\n", n) for sig, (n, case, v, vt) in sorted(viol.items())]
     def confirm(v):
         kv = dict(l.split("=", 1) for l in v.replay_text.strip().splitlines()); return replay(kv, quiet=True) == 1
     nvec = sum(1 for _ in open(vf))
@@ -144,7 +149,7 @@ def run(tier, deadline):
     cov = {"evaluations": tot["calls"], "distinct_nontrivial": nvec + 0x110000,
            "rule": f"reference = Python unicodedata (UCD {U.unidata_version}); normalization vectors: every assigned code point alone; every canonical decomposition (one level and full) to be recomposed; every Hangul L V, L V T and LV T; every composing pair with a mark of 6 classes between, after and before its halves, doubled, and with a starter between; every sequence of up to {3 if tier == 'quick' else 6} marks over an alphabet covering classes 1 7 10 202 216 220 230 230 240 after 4 starters; every string of up to {6 if tier == 'quick' else 10} elements over {{a, U+0301, U+0323, U+0327}}; every combining mark of the UCD in two (thorough: four) contexts; two runs of 9..13 and 14..27 marks in one string; the second half of every composing pair replaced by the assigned code points with the same low 16 bits in other planes; inputs of 1..600 clusters around the 128-element scratch size. Each vector runs in NFD and NFC mode with dmax = needed, needed+16, needed-1 and (longer inputs) more than twice the result in a canaried destination, in a forked child so that a call that corrupts the harness is attributed; oracle: result equals the reference form, *lenp equals its length, terminator inside dmax, nothing stale behind the terminator, a second normalization of the result is the identity, a too small dmax fails with dest cleared, nothing written beyond dmax. Folding: for every code point 0..10FFFF the number of characters towfc_s stores equals max(1, iswfc) and its positive return value; wcsfc_s of every assigned one-character string equals NFD(full case folding). Values above 10FFFF and surrogates, alone and embedded in four shapes, through wcsnorm_s, wcsfc_s, iswfc, towfc_s: no fault, values above 10FFFF rejected.",
            "samples": ["single 1E0A -> NFD 44,307 / NFC 1E0A", "pair-mark-between 1100,0301,1161 (must stay uncomposed)", "marks-3 61,0345,0323,0334", "hangul-LV+T AC00,11A8", "fold 1FC6: iswfc vs towfc_s", "range 110000 inside a,<cp>,0301"],
-           "normalization_vectors": nvec, "jobs_timed_out": len(timed_out)}
+           "normalization_vectors": nvec, "jobs_timed_out": len(timed_out), "library_builds": sorted(envs)}
     return common.finish("C17", tier, t0, cov, violations,
                          [f"Python's unicodedata (Unicode {U.unidata_version}) is the reference; code points it does not know are not judged (the library's tables are Unicode 15; normalization stability makes the comparison sound for every code point assigned in {U.unidata_version})",
                           "the documented minimum dmax of 5 and the fact that NFC is built from the decomposition in dest define 'needed' as max(5, NFD length + 1)", "wchar_t is 32 bits on this platform"],
@@ -159,7 +164,7 @@ def replay(kv, quiet=False):
             if i == ln: line = l.split(); break
         c = ["norm"] + line
     if c[0] == "fold": c[1] = ff
-    r = subprocess.run([BIN, "replay"] + c, capture_output=True, text=True, errors="replace", env=dict(os.environ, CAT_LIB=vbuild.build("prod")))
+    r = subprocess.run([BIN, "replay"] + c, capture_output=True, text=True, errors="replace", env=dict(os.environ, CAT_LIB=vbuild.build(kv.get("variant", "prod"))))
     if not quiet: sys.stdout.write(r.stdout); sys.stderr.write(r.stderr)
     if r.returncode not in (0, 1) and "harness-killed" in kv.get("signature", ""):
         if not quiet: print(f"VERDICT violation: the replaying process itself was killed by the call (exit status {r.returncode})")
